@@ -176,6 +176,13 @@ func c15LoadOpt(k *K, c *Cluster, T *Node, lim int, viaOption bool, full []strin
 			k.Failf("C15/newest-missing", "%s does not include the newest entry: positions %s of %d", how2, positions(full, got2), total)
 		}
 	}
+	// the key-value view is the replay of what the log holds now, no more (a second load with
+	// a smaller limit cuts a live log down)
+	if kv, ok := st.(iface.KeyValueStore); ok {
+		if got, want := MapStr(KVState(kv)), MapStr(ReplayLWW(LogValues(st))); got != want {
+			k.Failf("C15/view-differs", "after %s (and, in a third of the cases, a second load) the key-value view is {%s} but the %d entries the log holds replay to {%s}", how, got, len(LogValues(st)), want)
+		}
+	}
 	// the event-log view agrees with the log
 	if el, ok := st.(iface.EventLogStore); ok {
 		if vs := VisibleState(el); len(got) > 0 && vs == "log[]" {
